@@ -71,6 +71,7 @@ class C08(Check):
         "unpainted: only the primary assembly, name->rows equal to the input, cuts=breaks=joins=0, no haplotig assembly. Painted: same rows "
         "per scaffold, mapped scaffolds named <prefix>1..k by non-increasing size, absent ones keep their name. non-trivial = map whose bait end "
         "differs from the scaffold end for at least one scaffold, or with an absent scaffold"
+        " scaffold_2 also as three 1-bp contigs (gap, then abutting / gapped pair); bpt 6."
     )
     assumptions = [
         "PretextView model: end coordinate floor(n*bpt) with n in {floor,ceil}(L/bpt)",
